@@ -77,8 +77,75 @@ def _hierarchy(model: Model, cls) -> Set[str]:
     return fam
 
 
+CACHE_DECOS = ("lru_cache", "functools.lru_cache", "cache",
+               "functools.cache", "cached_property",
+               "functools.cached_property")
+
+
+def _decorator_caches(model, rep):
+    """functools caches: the cached object is handed to every caller.  A
+    module-level function (or a method keyed by hashable arguments) under
+    such a decorator must not return something a caller can modify in
+    place - an ndarray, list or dict, alone or inside a tuple: the first
+    in-place change is seen by every later caller, the library's own
+    requests included."""
+    R1 = "C15-R1"
+    n = 0
+    for fn in model.all_functions():
+        decos = []
+        for d in fn.node.decorator_list:
+            t = src(d.func) if isinstance(d, ast.Call) else src(d)
+            if t in CACHE_DECOS:
+                decos.append(t)
+        if not decos:
+            continue
+        n += 1
+        ann = src(fn.node.returns) if fn.node.returns is not None else ""
+        mutable_ann = any(k in ann for k in ("ndarray", "List", "Dict",
+                                             "list", "dict", "spmatrix"))
+        rets = [r.value for r in walk_no_nested(fn.node)
+                if isinstance(r, ast.Return) and r.value is not None]
+
+        def mutable_expr(e):
+            if isinstance(e, ast.Tuple):
+                return any(mutable_expr(x) for x in e.elts)
+            if isinstance(e, (ast.List, ast.Dict, ast.ListComp,
+                              ast.DictComp, ast.Set)):
+                return True
+            if isinstance(e, ast.Call):
+                f = src(e.func)
+                return f.startswith(("np.", "numpy.")) or f in (
+                    "list", "dict", "leggauss")
+            if isinstance(e, ast.BinOp):
+                return mutable_expr(e.left) or mutable_expr(e.right)
+            if isinstance(e, ast.Name):
+                # a local computed from numpy calls
+                for st in walk_no_nested(fn.node):
+                    if isinstance(st, ast.Assign):
+                        for t in st.targets:
+                            names = [x.id for x in ast.walk(t)
+                                     if isinstance(x, ast.Name)]
+                            if e.id in names and mutable_expr(st.value):
+                                return True
+            return False
+        cons = f"{fn.short()}:@{decos[0]}"
+        if mutable_ann or any(mutable_expr(r) for r in rets):
+            rep.fail(R1, fn.path, fn.short(), cons,
+                     f"the function is memoised with @{decos[0]} but returns "
+                     f"mutable arrays / containers ({ann or 'see returns'}): "
+                     f"every caller receives the same objects, so one "
+                     f"in-place change (e.g. rescaling a rule to another "
+                     f"interval) silently alters what all later callers - "
+                     f"the library itself included - are given",
+                     fn.lineno)
+        else:
+            rep.ok(R1, cons, "memoised value is immutable")
+    rep.units("functools-cached functions", n)
+
+
 def _memo_rules(model, an, rep):
     R1, R2 = "C15-R1", "C15-R2"
+    _decorator_caches(model, rep)
     mf = MemoFinder(model, an)
     sites = mf.sites()
     if len(sites) < 25:
@@ -431,6 +498,13 @@ def run(model: Model, rep, tier: str) -> None:
 
 _U = "skfem/utils.py"
 MUTANTS = [
+    ("line quadrature rule memoised with lru_cache",
+     [("skfem/quadrature.py", "from typing import Tuple, Type, Union\n",
+       "from functools import lru_cache\nfrom typing import Tuple, Type, "
+       "Union\n"),
+      ("skfem/quadrature.py", "def get_quadrature_line(norder: int)",
+       "@lru_cache(maxsize=None)\ndef get_quadrature_line(norder: int)")],
+     "C15-R1"),
     ("CG solver accumulates into the caller's right-hand side",
      ("skfem/utils.py", "            x = x + alpha * p\n",
       "            x += alpha * p\n"), "C15-R5"),
